@@ -2,11 +2,11 @@ package main
 
 import (
 	"bufio"
-	"math/rand"
 	"encoding/json"
 	"flag"
 	"fmt"
 	"io"
+	"math/rand"
 	"os"
 	"strings"
 	"time"
@@ -28,6 +28,8 @@ func (o boolSyms) GetSymbolType(name string) (ast.NodeType, bool) {
 			return ast.NodeTypeInt64, true
 		case 's':
 			return ast.NodeTypeString, true
+		case 'd':
+			return ast.NodeTypeDatetime, true
 		}
 	}
 	return 0, false
@@ -37,7 +39,7 @@ func (o boolSyms) IsSet(name string) (bool, bool) {
 	_, ok := o.GetSymbolType(name)
 	return false, ok
 }
-func (o boolSyms) EvalBool(name string) *bool                          { v := o.vals[name]; return &v }
+func (o boolSyms) EvalBool(name string) *bool { v := o.vals[name]; return &v }
 func (o boolSyms) EvalString(name string) *string {
 	if len(name) != 2 {
 		return nil
@@ -65,12 +67,21 @@ func (o boolSyms) EvalInt64(name string) *int64 {
 	}
 	return &v
 }
-func (o boolSyms) EvalFloat64(string) *float64                         { return nil }
-func (o boolSyms) EvalDatetime(string) *time.Time                      { return nil }
+func (o boolSyms) EvalFloat64(string) *float64 { return nil }
+func (o boolSyms) EvalDatetime(name string) *time.Time {
+	if len(name) != 2 {
+		return nil
+	}
+	v := time.Date(2019, 1, 1, 0, 0, 0, 0, time.UTC)
+	if o.vals[name[1:]] {
+		v = time.Date(2021, 1, 1, 0, 0, 0, 0, time.UTC)
+	}
+	return &v
+}
 func (o boolSyms) IsNil(name string) bool {
 	return len(name) == 2 && name[0] == 'm' && !o.vals[name[1:]]
 }
-func (o boolSyms) OpenSetCursor(string) ast.SetCursor                  { return ast.NewEmptyCursor() }
+func (o boolSyms) OpenSetCursor(string) ast.SetCursor                    { return ast.NewEmptyCursor() }
 func (o boolSyms) OpenSetCursorForQuery(string, ast.Query) ast.SetCursor { return ast.NewEmptyCursor() }
 
 type beCase struct {
@@ -91,16 +102,16 @@ type beMismatch struct {
 }
 
 type beReport struct {
-	Cases      int          `json:"cases"`
-	Evals      int          `json:"evaluations"`
-	NonTrivial int          `json:"distinct_nontrivial"` // expressions with at least two connectives
-	MixedCases int          `json:"mixed_cases"`
-	Strict     []beMismatch `json:"mismatches_strict"` // against the documented grouping
-	Dev        []beMismatch `json:"mismatches_dev"`    // against the right-nesting reading of unparenthesised mixed chains
-	NStrict    int          `json:"mismatch_count_strict"`
-	NDev       int          `json:"mismatch_count_dev"`
-	NStrictUnmixed int      `json:"mismatch_count_strict_unmixed"`
-	Samples    []string     `json:"sample_cases"`
+	Cases          int          `json:"cases"`
+	Evals          int          `json:"evaluations"`
+	NonTrivial     int          `json:"distinct_nontrivial"` // expressions with at least two connectives
+	MixedCases     int          `json:"mixed_cases"`
+	Strict         []beMismatch `json:"mismatches_strict"` // against the documented grouping
+	Dev            []beMismatch `json:"mismatches_dev"`    // against the right-nesting reading of unparenthesised mixed chains
+	NStrict        int          `json:"mismatch_count_strict"`
+	NDev           int          `json:"mismatch_count_dev"`
+	NStrictUnmixed int          `json:"mismatch_count_strict_unmixed"`
+	Samples        []string     `json:"sample_cases"`
 }
 
 var kwVariants = map[string][]string{
@@ -167,6 +178,10 @@ func spell(toks []string, variant int) string {
 					"m" + name + optws() + "<" + optws() + "2",
 					"m" + name + optws() + ">=" + optws() + "1",
 					"m" + name + optws() + "<=" + optws() + "1",
+					// datetime literals: white space is allowed inside the parentheses
+					"d" + name + optws() + ">=" + optws() + "datetime(" + optws() + "2020-06-01T00:00:00Z" + optws() + ")",
+					"d" + name + ws() + kw("in") + ws() + "[datetime(" + optws() + "2021-01-01T00:00:00Z" + optws() + ")" + optws() + "]",
+					"d" + name + ws() + kw("between") + ws() + "datetime(" + optws() + "2020-01-01T00:00:00+01:00" + optws() + ")" + ws() + kw("and") + ws() + "datetime(" + optws() + "2022-01-01T00:00:00Z)",
 				}
 				b.WriteString(forms[pick(len(forms))])
 			default:
